@@ -85,6 +85,10 @@ class _Plan:
         for s in strip_doc(stmts):
             if st["stop"]:
                 return
+            if isinstance(s, ast.Assign) and isinstance(s.value, ast.IfExp):
+                # `x = a if t else b`  ==  `if t: x = a` / `else: x = b`
+                mk = lambda v: ast.copy_location(ast.Assign(targets=s.targets, value=v, lineno=s.lineno), s)
+                s = ast.copy_location(ast.If(test=s.value.test, body=[mk(s.value.body)], orelse=[mk(s.value.orelse)]), s)
             if isinstance(s, ast.If):
                 v = self.param_test(s.test, env)
                 if v is not None:
@@ -428,6 +432,138 @@ def probe_store():
     return out
 
 
+def probe_history():
+    """behaviour that must not depend on what the process did before (observed on fresh stores, both importers):
+    (1) get_graph_id(graph_file=P), and with it the id-keeping file import, answers for the text that is in P NOW: P is
+        written with a model of graph a, asked, imported, written again with a model of graph b, asked and imported again;
+    (2) an import that is refused under an id nobody holds - at each stage at which the importers refuse: a node without NodeID
+        after complete ones, an empty NodeID, mixed GraphIDs, no GraphID - leaves the store exactly as it was (nodes, links,
+        the next internal id), observed by the numbering and the content of the next import"""
+    import os
+    import shutil
+    import tempfile
+    import fim.graph.networkx_property_graph as m
+    import fim.graph.networkx_property_graph_disjoint as md
+    from fim.graph.abc_property_graph import ABCPropertyGraph, GraphFormat
+    old, oldd = m.NetworkXGraphStorage.storage_instance, md.NetworkXGraphStorageDisjoint.storage_instance
+    tmp = tempfile.mkdtemp(prefix="c01-gen-")
+    follows, clean = True, True
+    why = []
+    try:
+        for key, mod, cls, icls, scls in (("shared", m, m.NetworkXPropertyGraph, m.NetworkXGraphImporter, m.NetworkXGraphStorage),
+                                          ("disjoint", md, md.NetworkXPropertyGraphDisjoint, md.NetworkXGraphImporterDisjoint,
+                                           md.NetworkXGraphStorageDisjoint)):
+            for fmt in (GraphFormat.GRAPHML, GraphFormat.JSON_NODELINK):
+                scls.storage_instance = None
+                imp = icls()
+
+                def model(gid, names):
+                    g = cls(graph_id=gid, importer=imp)
+                    for i, nm in enumerate(names):
+                        g.add_node(node_id="%s-%d" % (gid, i), label="NetworkNode" if i == 0 else "Component", props={"Name": nm})
+                    for i in range(1, len(names)):
+                        g.add_link(node_a="%s-0" % gid, rel="has", node_b="%s-%d" % (gid, i))
+                    return g.serialize_graph(format=fmt)
+
+                def content(gid):
+                    g = imp.storage.extract_graph(gid)
+                    if g is None or len(g) == 0:
+                        return None
+                    return (sorted((canon_pair({k: v for k, v in d.items() if k != ABCPropertyGraph.GRAPH_ID}) for _, d in g.nodes(data=True))),
+                            sorted({str(d.get(ABCPropertyGraph.GRAPH_ID)) for _, d in g.nodes(data=True)}), g.number_of_edges())
+                ta, tb = model("probe-a", ["a0", "a1"]), model("probe-b", ["b0", "b1", "b2"])
+                want_a, want_b = content("probe-a"), content("probe-b")
+                path = os.path.join(tmp, "probe-%s-%s.txt" % (key, fmt.name))
+                seen = []
+                for text, gid, want in ((ta, "probe-a", want_a), (tb, "probe-b", want_b), (ta, "probe-a", want_a)):
+                    with open(path, "w") as f:
+                        f.write(text)
+                    a1 = icls.get_graph_id(graph_file=path)
+                    g = imp.import_graph_from_file_direct(graph_file=path)
+                    seen.append((a1, g.graph_id, content(gid) == want))
+                if seen != [("probe-a", "probe-a", True), ("probe-b", "probe-b", True), ("probe-a", "probe-a", True)]:
+                    follows = False
+                    why.append("%s/%s: a file rewritten with other models was read as %s" % (key, fmt.name, seen))
+                # (2) refused imports under free ids, then the same good text under a fresh id
+                import json as _json
+                from lxml import etree
+                scls.storage_instance = None
+                imp = icls()
+                ta, tb = model("probe-a", ["a0", "a1"]), model("probe-b", ["b0", "b1", "b2"])
+
+                def damaged(text, how):
+                    if fmt == GraphFormat.JSON_NODELINK:
+                        o = _json.loads(text)
+                        nodes = [x for k, v in o.items() if isinstance(v, list) for x in v if ABCPropertyGraph.NODE_ID in x]
+                        for x in nodes:
+                            x["Residue"] = "left"
+                        if how == "nonid":
+                            del nodes[-1][ABCPropertyGraph.NODE_ID]
+                        elif how == "emptynid":
+                            nodes[-1][ABCPropertyGraph.NODE_ID] = ""
+                        elif how == "mixed":
+                            nodes[-1][ABCPropertyGraph.GRAPH_ID] = "probe-other"
+                        else:
+                            del nodes[-1][ABCPropertyGraph.GRAPH_ID]
+                        return _json.dumps(o)
+                    root = etree.fromstring(text.encode("utf-8"))
+                    ns = "{http://graphml.graphdrawing.org/xmlns}"
+                    kid = {k.get("attr.name"): k.get("id") for k in root.iter(ns + "key") if k.get("for") == "node"}
+                    nodes = list(root.iter(ns + "node"))
+                    last = nodes[-1]
+                    name = ABCPropertyGraph.NODE_ID if how in ("nonid", "emptynid") else ABCPropertyGraph.GRAPH_ID
+                    d = [x for x in last.iter(ns + "data") if x.get("key") == kid[name]][0]
+                    if how in ("nonid", "nogid"):
+                        last.remove(d)
+                    elif how == "emptynid":
+                        d.text = None
+                    else:
+                        d.text = "probe-other"
+                    for x in nodes:
+                        # the Name key exists for nodes: overwrite it, so that whatever is left behind is told apart
+                        for y in x.iter(ns + "data"):
+                            if y.get("key") == kid["Name"]:
+                                y.text = "left"
+                    return etree.tostring(root).decode("utf-8")
+
+                def dump():
+                    st = imp.storage
+                    if key == "shared":
+                        return (sorted((n, canon_pair(d)) for n, d in st.graphs.nodes(data=True)), st.graphs.number_of_edges(), st.start_id)
+                    return (sorted((str(k), sorted((n, canon_pair(d)) for n, d in g.nodes(data=True)), g.number_of_edges())
+                                   for k, g in st.graphs.items() if len(g)), sorted((str(k), v) for k, v in st.graph_node_ids.items() if v))
+                k = 0
+                for entry, how in (("string", "nonid"), ("file", "nonid"), ("string", "emptynid"), ("string_direct", "mixed"), ("file_direct", "nogid")):
+                    k += 1
+                    before = dump()
+                    t2 = damaged(tb, how)
+                    p2 = os.path.join(tmp, "refused-%d.txt" % k)
+                    with open(p2, "w") as f:
+                        f.write(t2)
+                    try:
+                        if entry == "string":
+                            imp.import_graph_from_string(graph_string=t2, graph_id="probe-draft-%d" % k)
+                        elif entry == "file":
+                            imp.import_graph_from_file(graph_file=p2, graph_id="probe-draft-%d" % k)
+                        elif entry == "string_direct":
+                            imp.import_graph_from_string_direct(graph_string=t2)
+                        else:
+                            imp.import_graph_from_file_direct(graph_file=p2)
+                        continue          # accepted: nothing to observe about a refusal
+                    except Exception:
+                        pass
+                    after = dump()
+                    imp.import_graph_from_string(graph_string=ta, graph_id="probe-copy-%d" % k)
+                    if after != before or content("probe-copy-%d" % k) != want_a[:1] + (["probe-copy-%d" % k],) + want_a[2:]:
+                        clean = False
+                        why.append("%s/%s: an import refused through %s (%s) under a free id changed the store" % (key, fmt.name, entry, how))
+    finally:
+        m.NetworkXGraphStorage.storage_instance = old
+        md.NetworkXGraphStorageDisjoint.storage_instance = oldd
+        shutil.rmtree(tmp, ignore_errors=True)
+    return {"graph_id_follows_file": follows, "refused_import_leaves_store": clean, "why": why}
+
+
 def extract():
     import fim.graph.abc_property_graph_constants as cm
     importlib.reload(cm)
@@ -479,6 +615,7 @@ def extract():
     elif init is not None and init != c["first"]["initial"]:
         raise ExtractionError("initial start_id %s read from the source, but the first node of a fresh store is %s" % (
             c["first"]["initial"], init))
+    c["history"] = probe_history()
     tree, src = parse(TOPO)
     c["load"] = {"Topology": extract_load(tree, "Topology"), "AdvertizedTopology": extract_load(tree, "AdvertizedTopology")}
     c["ctor_loads"] = {k: extract_ctor_loads(tree, k) for k in ("Topology", "AdvertizedTopology")}
@@ -543,11 +680,18 @@ def generate():
     b += "/-- do the constructors pass graph_file / graph_string on to load? -/\n"
     b += "def topologyCtorLoads : Bool := %s\ndef advertizedCtorLoads : Bool := %s\n" % (
         "true" if c["ctor_loads"]["Topology"] else "false", "true" if c["ctor_loads"]["AdvertizedTopology"] else "false")
+    b += "\n/-- observed (both importers, both formats): get_graph_id(graph_file=) / import_graph_from_file_direct read the text that is in the\n"
+    b += "    file at the time of the call - a file written again with another model is read as that model -/\n"
+    b += "def graphIdFollowsFile : Bool := %s\n\n" % ("true" if c["history"]["graph_id_follows_file"] else "false")
+    b += "/-- observed (both stores, both formats, every stage at which an import is refused): a refused import under an id nobody\n"
+    b += "    holds leaves nodes, links and the next internal id as they were -/\n"
+    b += "def refusedImportLeavesStore : Bool := %s\n" % ("true" if c["history"]["refused_import_leaves_store"] else "false")
     changed = emit("Serial", b, header="import FimVerif.Model.SerialSpec\n")
     rep = {k: c[k] for k in ("GRAPH_ID", "NODE_ID", "PROP_CLASS", "READ_FORMATS", "node_reserved", "edge_reserved", "roles", "load", "ctor_loads")}
     rep["json_property_names"] = len(c["JSON_PROPERTY_NAMES"])
     rep["markup"] = {k: list(v) for k, v in c["markup"].items()}
     rep["first_label"] = {k: list(v) if isinstance(v, tuple) else v for k, v in c["first"].items()}
+    rep["history"] = c["history"]
     rep["changed"] = changed
     return rep
 
